@@ -459,8 +459,15 @@ func e18DiffCase(pkg string, seed uint64, n int, foreign string) Case {
 				}
 				j++
 			}
-			if held < kcache.EventBufsiz {
-				r.V("C20", "overflow-lost-too-much", "%s side of %s: stalled subscriber holds %d events (< %d)", sd.name, pkg, held, kcache.EventBufsiz)
+			// the two foreign frames of the watch variant occupy slots of whatever buffer
+			// sits upstream of the typed adapter, which then skips them: they are not
+			// events of this type and cannot be counted on the typed side
+			need := kcache.EventBufsiz
+			if foreign == "watch" && sd.name == "typed" {
+				need -= 2
+			}
+			if held < need {
+				r.V("C20", "overflow-lost-too-much", "%s side of %s: stalled subscriber holds %d events (< %d)", sd.name, pkg, held, need)
 			}
 		}
 		// close: lifecycle equal on both sides
